@@ -251,10 +251,10 @@ Proof.
   induction fuel as [|f IH]; intros buf Hb Hlen; [lia|].
   cbn [uri_decode_loop]. destruct buf as [|c0 buf0]; [reflexivity|].
   remember (c0 :: buf0) as buf eqn:Ebuf.
+  unfold uri_decode_turn.
   pose proof (span_app not_percent buf) as Happ.
   pose proof (span_all not_percent buf) as Hall.
   pose proof (span_stop not_percent buf) as Hstop.
-  pose proof (span_length not_percent buf) as Hsl.
   destruct (span not_percent buf) as [tok rest]. cbn [fst snd] in *.
   assert (Hlb : (length buf = length tok + length rest)%nat) by (rewrite <- Happ, app_length; reflexivity).
   assert (Hne : (length buf > 0)%nat) by (subst buf; cbn; lia).
@@ -262,24 +262,24 @@ Proof.
   rewrite <- Happ. rewrite (pct_decode_plain tok rest Hall).
   destruct rest as [|p r].
   - (* the run reached the end *)
-    rewrite IH; [|apply Forall_nil|cbn [length]; lia]. cbn. rewrite app_nil_r. reflexivity.
+    rewrite IH; [|apply Forall_nil|cbn [length]; lia]. reflexivity.
   - unfold not_percent in Hstop. destruct (p =? 37) eqn:Ep; [|discriminate].
     apply N.eqb_eq in Ep. subst p.
     cbn [pct_decode]. change (37 =? 37) with true. cbv iota.
-    inversion Hbr as [|? ? _ Hr]; subst.
+    pose proof (Forall_inv_tail Hbr) as Hr.
     destruct r as [|h1 r1]; [reflexivity|].
-    inversion Hr as [|? ? Hh1 Hr1]; subst.
+    pose proof (Forall_inv Hr) as Hh1. pose proof (Forall_inv_tail Hr) as Hr1. cbv beta in Hh1.
     rewrite (tok_int64_hex1 h1 r1 Hh1). unfold int64_hex1_spec.
     destruct (hexval h1) as [a|] eqn:Ea; [|destruct r1 as [|? ?]; reflexivity].
     rewrite dropN_1.
     destruct r1 as [|h2 r2]; [reflexivity|].
-    inversion Hr1 as [|? ? Hh2 Hr2]; subst.
+    pose proof (Forall_inv Hr1) as Hh2. pose proof (Forall_inv_tail Hr1) as Hr2. cbv beta in Hh2.
     rewrite (tok_int64_hex1 h2 r2 Hh2). unfold int64_hex1_spec.
     destruct (hexval h2) as [b|] eqn:Eb; [|reflexivity].
     rewrite dropN_1.
     rewrite (shift_or_byte a b (hexval_lt16 _ _ Ea) (hexval_lt16 _ _ Eb)).
     rewrite IH; [|exact Hr2|cbn [length] in *; lia].
-    destruct (pct_decode r2); reflexivity.
+    destruct (pct_decode r2); [|reflexivity]. cbn [res_of option_map]. rewrite <- app_assoc. reflexivity.
 Qed.
 
 Theorem uri_decode_spec buf : bytes_ok buf -> uri_decode buf = res_of (pct_decode buf).
